@@ -16,7 +16,7 @@ import (
 // the commit id of that version and hold exactly that version's contents (compared with a
 // reference map at an arbitrary key).
 func VerifC04reopen() {
-	db := modelkv.NewDB()
+	db := modelkv.NewUnorderedDB()
 	rs := mwMustOpen(db)
 	ref := mwNewRef()
 	b1 := mwBlock(1 + v.Tier())
